@@ -61,14 +61,13 @@ macro_rules! queries {
 macro_rules! drive_ns {
     ($reader:ident, $ops:ident, $pool:ident, $out:ident, $use_resolved:expr,
      read: $read:expr, read_res: $read_res:expr, rte: $rte:expr) => {{
-        let mut last_start: Vec<u8> = Vec::new();
-        let mut fresh = false;
+        // names of the open elements as observed through the events (skip = read_to_end on the innermost one)
+        let mut open: Vec<Vec<u8>> = Vec::new();
         for (i, op) in $ops.iter().enumerate() {
-            let do_skip = op == "rte" && fresh;
+            let do_skip = op == "rte" && !open.is_empty();
             let r = catch_unwind(AssertUnwindSafe(|| {
                 if do_skip {
-                    fresh = false;
-                    let name = last_start.clone();
+                    let name = open.pop().unwrap();
                     let res: Result<std::ops::Range<u64>, quick_xml::Error> = ($rte)(QName(&name));
                     let mut ob = match &res {
                         Ok(_) => Obs { k: "Span".into(), ..Default::default() },
@@ -79,14 +78,16 @@ macro_rules! drive_ns {
                     let (q, pf) = queries!($reader, $pool);
                     NsObs { op: "rte".into(), o: ob, span: res.ok().map(|s| (s.start, s.end)), resolved: None, queries: q, prefixes: pf, nserr: String::new() }
                 } else {
-                    fresh = false;
                     let (mut ob, resolved, nserr) = if $use_resolved(i) {
                         let res = $read_res;
                         match res {
                             Ok((r, ev)) => {
-                                if let Event::Start(e) = &ev {
-                                    last_start = e.name().as_ref().to_vec();
-                                    fresh = true;
+                                match &ev {
+                                    Event::Start(e) => open.push(e.name().as_ref().to_vec()),
+                                    Event::End(_) => {
+                                        open.pop();
+                                    }
+                                    _ => {}
                                 }
                                 (crate::obs::project_event(&ev), Some(rr(&r)), String::new())
                             }
@@ -97,9 +98,12 @@ macro_rules! drive_ns {
                         let res = $read;
                         match res {
                             Ok(ev) => {
-                                if let Event::Start(e) = &ev {
-                                    last_start = e.name().as_ref().to_vec();
-                                    fresh = true;
+                                match &ev {
+                                    Event::Start(e) => open.push(e.name().as_ref().to_vec()),
+                                    Event::End(_) => {
+                                        open.pop();
+                                    }
+                                    _ => {}
                                 }
                                 (crate::obs::project_event(&ev), None, String::new())
                             }
